@@ -172,6 +172,7 @@ class JobResult:
         self.cases = 0
         self.counters = {}
         self.maxr = {}
+        self.maxr_case = {}
         self.nt = set()
         self.samples = []
         self.violations = []     # dict(key, idx, details, job)
@@ -179,7 +180,7 @@ class JobResult:
         self.tsan_reports = []
         self.wall = 0.0
 
-    def merge_case(self, rec):
+    def merge_case(self, rec, idx=-1):
         self.cases += 1
         for k, v in rec.get("c", {}).items():
             self.counters[k] = self.counters.get(k, 0) + v
@@ -188,6 +189,7 @@ class JobResult:
                 v = float(v.replace("\"", ""))
             if k not in self.maxr or v > self.maxr[k]:
                 self.maxr[k] = v
+                self.maxr_case[k] = idx
         for h in rec.get("nt", []):
             self.nt.add(h)
         if "s" in rec and len(self.samples) < 12:
@@ -196,9 +198,9 @@ class JobResult:
 
 def parse_log(path, res, job, seen_done):
     """Parse one worker log. Returns (open_idx or None, done flag)."""
-    open_idx, done = None, False
+    open_idx, done, tag = None, False, None
     if not os.path.exists(path):
-        return None, False
+        return None, False, None
     with open(path, "r", errors="replace") as fh:
         for line in fh:
             if not line.endswith("\n"):
@@ -206,11 +208,15 @@ def parse_log(path, res, job, seen_done):
             t = line[0]
             if t == "B":
                 open_idx = int(line[2:])
+                tag = None
+            elif t == "T":
+                sp = line.find(" ", 2)
+                tag = line[sp + 1:].strip()
             elif t == "E":
                 sp = line.find(" ", 2)
                 idx = int(line[2:sp])
                 try:
-                    res.merge_case(json.loads(line[sp + 1:]))
+                    res.merge_case(json.loads(line[sp + 1:]), idx)
                 except ValueError:
                     res.violations.append(dict(key="harness/bad-record", idx=idx, details={"line": line[:200]}, job=job["name"]))
                 open_idx = None
@@ -228,7 +234,7 @@ def parse_log(path, res, job, seen_done):
                 res.inconclusive.append(dict(idx=int(line[2:sp]), reason=line[sp + 1:].strip(), job=job["name"]))
             elif t == "D":
                 done = True
-    return open_idx, done
+    return open_idx, done, tag
 
 
 def run_job(job, exe, tier, seed, workdir):
@@ -272,7 +278,7 @@ def run_job(job, exe, tier, seed, workdir):
                             p.wait()
                             break
             with lock:
-                open_idx, done = parse_log(lp, res, job, None)
+                open_idx, done, open_tag = parse_log(lp, res, job, None)
             rc = p.returncode
             with open(ep, "r", errors="replace") as ef:
                 err = ef.read()
@@ -293,7 +299,10 @@ def run_job(job, exe, tier, seed, workdir):
                 if timed_out:
                     res.inconclusive.append(dict(idx=open_idx, reason="watchdog: no progress for %ds" % job.get("case_timeout", CASE_TIMEOUT), job=job["name"]))
                 else:
-                    res.violations.append(dict(key=classify_crash(err, rc), idx=open_idx,
+                    ck = classify_crash(err, rc)
+                    if open_tag:
+                        ck = open_tag + "/" + ck
+                    res.violations.append(dict(key=ck, idx=open_idx,
                                                details={"rc": rc, "stderr_tail": err[-3000:]}, job=job["name"]))
             start = open_idx + 1
             if attempt > 200:
@@ -396,9 +405,10 @@ def run_property(pid, tier, seed, only=None):
     # build all jobs (translation units in parallel across jobs)
     exes = {}
     try:
-        with ThreadPoolExecutor(max_workers=JOBS) as pool:
-            for j in jobs:
-                exes[j["name"]] = build(j, pool)
+        with ThreadPoolExecutor(max_workers=JOBS) as pool, ThreadPoolExecutor(max_workers=JOBS) as outer:
+            futs = [(j["name"], outer.submit(build, j, pool)) for j in jobs]
+            for n, f in futs:
+                exes[n] = f.result()
     except Exception as ex:  # noqa
         log("HARNESS-FAILURE property=%s build: %s" % (pid, ex))
         write_evidence(pid, prop, tier, seed, None, [], [], ["build failed: %s" % str(ex)[:400]], canaries, time.time() - t0)
@@ -449,6 +459,12 @@ def run_property(pid, tier, seed, only=None):
                     hit[k["key"]]["examples"].append(dict(case=v["idx"], key=v["key"]))
             else:
                 unknown.setdefault(v["key"], []).append(v)
+    dump = os.environ.get("VERIF_DUMP")
+    if dump:
+        with open(dump, "w") as fh:
+            for r in results:
+                for v in r.violations:
+                    fh.write(json.dumps(dict(job=v["job"], idx=v["idx"], key=v["key"], details=v["details"])) + "\n")
     cases = sum(r.cases for r in results)
     nt = set()
     for r in results:
@@ -500,16 +516,16 @@ def run_single(job, exe, tier, seed, idx, workdir):
     with open(ep, "wb") as ef:
         p = subprocess.run([exe, "--tier", tier, "--seed", str(seed), "--only", str(idx), "--log", lp], stdout=ef, stderr=ef,
                            env=env_for(job["flavour"], workdir, "replay"), cwd=workdir)
-    open_idx, done = parse_log(lp, res, job, None)
+    open_idx, done, open_tag = parse_log(lp, res, job, None)
     err = open(ep, errors="replace").read()
     if p.returncode != 0:
-        res.violations.append(dict(key=classify_crash(err, p.returncode), idx=idx, details={"stderr_tail": err[-3000:]}, job=job["name"]))
+        res.violations.append(dict(key=(open_tag + "/" if open_tag else "") + classify_crash(err, p.returncode), idx=idx, details={"stderr_tail": err[-3000:]}, job=job["name"]))
     res.total = 1
     return res
 
 
 def write_evidence(pid, prop, tier, seed, results, unknown, hit, harness_fail, canaries, wall, build_s=0.0, extra_cov=None, only=None):
-    counters, maxr, samples, perjob = {}, {}, [], {}
+    counters, maxr, samples, perjob, maxr_where = {}, {}, [], {}, {}
     nt = set()
     cases = 0
     incon = []
@@ -521,6 +537,7 @@ def write_evidence(pid, prop, tier, seed, results, unknown, hit, harness_fail, c
             for k, v in r.maxr.items():
                 if k not in maxr or v > maxr[k]:
                     maxr[k] = v
+                    maxr_where[k] = "%s case %s" % (r.job["name"], r.maxr_case.get(k))
             nt |= set((r.job["name"], h) for h in r.nt)
             for s in r.samples:
                 if len(samples) < 8:
@@ -536,7 +553,7 @@ def write_evidence(pid, prop, tier, seed, results, unknown, hit, harness_fail, c
         reasons[rr] = reasons.get(rr, 0) + 1
     cov = dict(evaluations=int(counters.get("evals", cases)), driver_cases=cases, distinct_nontrivial=len(nt), rule=prop["rule"], samples=samples,
                exhaustive=bool(prop.get("exhaustive", False)) and tier in prop.get("exhaustive_tiers", ["quick", "thorough"]),
-               counters=dict(sorted(counters.items())), worst_ratio_to_allowance=dict(sorted(maxr.items())),
+               counters=dict(sorted(counters.items())), worst_ratio_to_allowance=dict(sorted(maxr.items())), worst_ratio_case=dict(sorted(maxr_where.items())),
                jobs=perjob, inconclusive=dict(total=len(incon), by_reason=reasons),
                sanitizer_canaries_detected=canaries,
                known_findings_hit=[dict(key=h["k"]["key"], what=h["k"]["what"], occurrences=h["n"], examples=h["examples"]) for h in (hit.values() if hit else [])],
@@ -572,7 +589,7 @@ def main():
         rc = 0
         with ThreadPoolExecutor(max_workers=JOBS) as pool:
             futs = []
-            outer = ThreadPoolExecutor(max_workers=6)
+            outer = ThreadPoolExecutor(max_workers=JOBS)
             for pid, prop in PROPS.items():
                 for j in prop["jobs"]:
                     if "quick" in j.get("tiers", ["quick", "thorough"]):
